@@ -309,7 +309,7 @@ func (w *World) userFn(op *Op, exec failsafe.Execution[R]) (R, error) {
 		}
 	}
 	w.log.add(e)
-	var res R = o.Result
+	var res R = resVal(o.Result)
 	err := errTable[o.Err]
 	sawCancel := false
 	if o.Dur > 0 {
